@@ -38,6 +38,48 @@ OPS = [
 ]
 
 
+def enumerate_mutants2(repo):
+    """second operator family: delete one single-line statement; bump / lower one integer literal"""
+    out = []
+    for f in FILES:
+        p = os.path.join(repo, f)
+        if not os.path.exists(p):
+            continue
+        lines = open(p).read().split("\n")
+        in_tests = in_block = False
+        depth_fn = 0
+        for i, line in enumerate(lines):
+            s = line.strip()
+            if s.startswith("#[cfg(test)]"):
+                in_tests = True
+            if in_tests:
+                continue
+            if "/*" in s and "*/" not in s:
+                in_block = True
+            if in_block:
+                if "*/" in s:
+                    in_block = False
+                continue
+            if s.startswith("//") or s.startswith("#[") or s.startswith("use ") or not s:
+                continue
+            code = line.split("//")[0]
+            indent = len(line) - len(line.lstrip())
+            # statement deletion: an indented single-line statement ending in `;` that is not a binding / return / item
+            if indent >= 8 and s.endswith(";") and not re.match(r"(let |return|const |type |pub |fn |use |break|continue|\}|\)|\])", s) \
+                    and s.count("(") == s.count(")") and s.count("{") == s.count("}"):
+                out.append({"file": f, "line": i + 1, "old": line, "new": " " * indent + "// (statement deleted)", "op": "delete-statement"})
+            # integer literals (decimal, outside attribute / table rows of pure literals)
+            if re.search(r"0b|0x|=> |b'", code) is None:
+                for m in re.finditer(r"(?<![\w.])(\d+)(?![\w.])", code):
+                    v = int(m.group(1))
+                    for nv in ({v + 1, max(v - 1, 0)} - {v}):
+                        new = code[:m.start()] + str(nv) + code[m.end():]
+                        out.append({"file": f, "line": i + 1, "old": line, "new": new + line[len(code):], "op": f"literal {v}->{nv}"})
+    for k, m in enumerate(out):
+        m["id"] = 1000 + k
+    return out
+
+
 def enumerate_mutants(repo):
     out = []
     for f in FILES:
@@ -135,7 +177,7 @@ def run(args):
 
 if __name__ == "__main__":
     ap = argparse.ArgumentParser()
-    ap.add_argument("mode", choices=["list", "run"])
+    ap.add_argument("mode", choices=["list", "list2", "run"])
     ap.add_argument("--repo", default="/repo")
     ap.add_argument("--lane")
     ap.add_argument("--shard", default="0/1")
@@ -146,5 +188,7 @@ if __name__ == "__main__":
     a = ap.parse_args()
     if a.mode == "list":
         json.dump(enumerate_mutants(a.repo), sys.stdout, indent=0)
+    elif a.mode == "list2":
+        json.dump(enumerate_mutants2(a.repo), sys.stdout, indent=0)
     else:
         run(a)
